@@ -30,7 +30,8 @@ type refMsg struct {
 type refDev struct {
 	fcntDn    int  // next downlink counter of the session
 	rows      int  // inbox rows seen so far
-	off       bool // judgement of the downlink side suspended (counter exhausted, payload over the data-rate limit)
+	off       bool // judgement of the downlink side suspended (counter exhausted)
+	pieces    bool // a message over the data-rate limit is being sent in pieces: content, order and counters are outside C06's quantifier from here on, C09 (answer count, ACK bit) is not
 	exhausted bool // the uplink counter reached 65535
 	msgs      []*refMsg
 	session   string
@@ -186,7 +187,12 @@ func (h *seqHistory) refCheck(ev *refEvent, impl string) {
 		// ---------- an accepted uplink of d
 		if newRows != 1 {
 			h.refFail("uplink-not-recorded-once", fmt.Sprintf("C02/C03: an acceptable uplink (fcnt %d) of %s produced %d inbox rows", ev.fc, d.eui, newRows), strings.Join(rows[e], ";"), "exactly one new row")
-		} else if ev.hasPort {
+		} else {
+			// (a frame without a port carries no payload: what is recorded and published is empty, not
+			// something left over from an earlier frame)
+			if !ev.hasPort {
+				ev.plain = nil
+			}
 			want := fmt.Sprintf("data=%s gw=%s addr=%d radio=%s", hx.H(ev.plain), ev.gw, d.addr, ev.radio)
 			found := false
 			for _, l := range rows[e] {
@@ -210,6 +216,18 @@ func (h *seqHistory) refCheck(ev *refEvent, impl string) {
 		}
 		r.rows = len(rows[e])
 		if r.off {
+			continue
+		}
+		if r.pieces {
+			// C09 for a device whose answers are pieces of an over-long message: at most one answer per
+			// accepted uplink, exactly one for a confirmed uplink, and the ACK flag exactly then (it is
+			// never repeated on a later piece)
+			ds := downs[d.eui]
+			if len(ds) > 1 || (ev.confirmed && len(ds) != 1) {
+				h.refFail("answer-count", fmt.Sprintf("C09: accepted uplink fcnt %d of %s (confirmed=%v, pieces of an over-long message pending) was answered by %d downlinks", ev.fc, d.eui, ev.confirmed, len(ds)), fmt.Sprint(len(ds)), "1")
+			} else if len(ds) == 1 && ds[0].ack != ev.confirmed {
+				h.refFail("ack-bit", fmt.Sprintf("C09: ACK bit of the answer is %v for an uplink with confirmed=%v (piece of an over-long message)", ds[0].ack, ev.confirmed), ds[0].raw, "")
+			}
 			continue
 		}
 		// life-cycle of the queued messages (C08), then the answer (C06, C09, C07).
@@ -241,7 +259,7 @@ func (h *seqHistory) refCheck(ev *refEvent, impl string) {
 		if next != nil && len(next.data) > drLimit[ev.dr] {
 			// over the limit of this uplink's data rate: outside C06's quantifier (the message is sent
 			// in pieces); C09 still holds for this answer: one frame, ACK exactly for a confirmed uplink
-			r.off = true
+			r.pieces = true
 			if len(ds) != 1 {
 				h.refFail("answer-count", fmt.Sprintf("C09: accepted uplink fcnt %d of %s (over-long message pending) was answered by %d downlinks", ev.fc, d.eui, len(ds)), fmt.Sprint(len(ds)), "1")
 			} else if ds[0].ack != ev.confirmed {
@@ -299,7 +317,7 @@ func (h *seqHistory) refCheck(ev *refEvent, impl string) {
 	}
 	for _, d := range h.devs {
 		r := h.ref(d)
-		if r.off {
+		if r.off || r.pieces {
 			continue
 		}
 		for _, m := range r.msgs {
